@@ -81,6 +81,8 @@ FIXED = [
     ("C19", ["cpu_count_logical_wrong:arm_old"], "fix: cpu_count() counted the ARM 'Processor : <model>' line", "old-ARM /proc/cpuinfo with sysconf failing: 2 CPUs -> 3"),
     ("C19", ["cpu_freq_percpu_length_wrong:s390x_static_mhz_line"], "fix: cpu_freq() listed every s390x CPU twice", "'cpu MHz dynamic' + 'cpu MHz static' per CPU"),
     ("C19", ["fans_exception:ValueError:unreadable_or_missing_input_present"], "fix: sensors_fans() failed on a fan whose reading cannot be parsed", "empty / 'N/A' fanN_input"),
+    ("C20", ["malformed_exception:netbsd"], "fix: NetBSD cmdline() raised a NoSuchProcess that could not be printed",
+     "ppid() earlier, process gone, cmdline() gets EINVAL: NoSuchProcess(msg=<ppid>) whose str() raises TypeError"),
     ("C20", ["windows_broadcast_discarded"], "fix: net_if_addrs() on Windows computed the broadcast address", "192.168.1.10/255.255.255.0 -> broadcast None"),
     ("C20", ["doc_unqualified_name_missing:STATUS_WAKE_KILL", "doc_promised_name_missing:netbsd:STATUS_SUSPENDED"],
      "fix: export the documented STATUS_WAKE_KILL and STATUS_SUSPENDED", "psutil.STATUS_WAKE_KILL -> AttributeError although documented and returned by status()"),
